@@ -6649,13 +6649,19 @@ impl RelationalEngine {
                             change.column
                         ));
                     }
-                    if let Err(e) =
-                        self.index_add(table, &change.column, &change.old_value, *row_id)
-                    {
-                        errors.push(format!(
-                            "Failed to add index entry for {table}.{}: {e}",
-                            change.column
-                        ));
+                    // Re-add only to the kind of index the column has: an
+                    // ordered entry for a hash-only column would create an
+                    // ordered index nobody asked for, whose keys count
+                    // against `max_btree_entries`.
+                    if self.has_index(table, &change.column) {
+                        if let Err(e) =
+                            self.index_add(table, &change.column, &change.old_value, *row_id)
+                        {
+                            errors.push(format!(
+                                "Failed to add index entry for {table}.{}: {e}",
+                                change.column
+                            ));
+                        }
                     }
                     if let Err(e) =
                         self.btree_index_remove(table, &change.column, &change.new_value, *row_id)
@@ -6665,13 +6671,15 @@ impl RelationalEngine {
                             change.column
                         ));
                     }
-                    if let Err(e) =
-                        self.btree_index_add(table, &change.column, &change.old_value, *row_id)
-                    {
-                        errors.push(format!(
-                            "Failed to add btree index for {table}.{}: {e}",
-                            change.column
-                        ));
+                    if self.has_btree_index(table, &change.column) {
+                        if let Err(e) =
+                            self.btree_index_add(table, &change.column, &change.old_value, *row_id)
+                        {
+                            errors.push(format!(
+                                "Failed to add btree index for {table}.{}: {e}",
+                                change.column
+                            ));
+                        }
                     }
                 }
             },
@@ -6694,13 +6702,19 @@ impl RelationalEngine {
 
                 // Restore index entries (continue even if some fail)
                 for (col, value) in index_entries {
-                    if let Err(e) = self.index_add(table, col, value, *row_id) {
-                        errors.push(format!("Failed to add index entry for {table}.{col}: {e}"));
+                    // Only the kind of index the column has (see `UpdatedRow`)
+                    if self.has_index(table, col) {
+                        if let Err(e) = self.index_add(table, col, value, *row_id) {
+                            errors
+                                .push(format!("Failed to add index entry for {table}.{col}: {e}"));
+                        }
                     }
-                    if let Err(e) = self.btree_index_add(table, col, value, *row_id) {
-                        errors.push(format!(
-                            "Failed to add btree index entry for {table}.{col}: {e}"
-                        ));
+                    if self.has_btree_index(table, col) {
+                        if let Err(e) = self.btree_index_add(table, col, value, *row_id) {
+                            errors.push(format!(
+                                "Failed to add btree index entry for {table}.{col}: {e}"
+                            ));
+                        }
                     }
                 }
             },
